@@ -146,7 +146,8 @@ def _intlike(lo=0, hi=64):
 
 def _floatlike():
     return st.one_of(
-        st.sampled_from([0.5, 30.0, 1e-05, 120, 0, 2.25, 1e+16, 0.1, 3600.0, 59.99]),
+        st.sampled_from([0.5, 30.0, 1e-05, 120, 0, 2.25, 1e+16, 0.1, 3600.0, 59.99,
+                         10080.125, 1234567.0, 0.1234567, 86399.999, 1e-09, 123456.789012]),   # > 6 significant digits
         st.integers(0, 10000),
         st.just("%(TimeLimit_s)s"), st.just("%(numberPoints)s"))
 
